@@ -11,12 +11,19 @@ use std::cell::Cell;
 use std::rc::Rc;
 use std::collections::BTreeSet;
 use std::sync::atomic::{AtomicU8, Ordering};
+#[allow(unused_imports)]
+use std::sync::atomic::AtomicBool;
 use std::sync::{Arc, Condvar, Mutex};
 
 pub struct Baton {
     inner: Mutex<Inner>,
     cv: Condvar,
     phases: Vec<AtomicU8>,
+    /// kernel thread ids of the simulated threads (0 = not started yet)
+    ktids: Vec<std::sync::atomic::AtomicI32>,
+    /// set when the run had to leave deterministic mode (see `monitor`)
+    free: std::sync::atomic::AtomicBool,
+    done: std::sync::atomic::AtomicBool,
 }
 
 struct Inner {
@@ -39,6 +46,11 @@ pub struct SchedStats {
     pub switches: u64,
     pub trace_hash: u64,
     pub overlap_states: Vec<(u8, u8)>,
+    /// the baton holder blocked in the kernel on something a parked thread holds
+    /// (a real lock taken by the code under test and pre-empted inside its
+    /// critical section): the schedule was infeasible, the threads were released
+    /// to run freely and the run is inconclusive (its results must be discarded)
+    pub free_running: bool,
 }
 
 pub struct Handle {
@@ -65,6 +77,9 @@ impl Baton {
             }),
             cv: Condvar::new(),
             phases: (0..n).map(|_| AtomicU8::new(0)).collect(),
+            ktids: (0..n).map(|_| std::sync::atomic::AtomicI32::new(0)).collect(),
+            free: std::sync::atomic::AtomicBool::new(false),
+            done: std::sync::atomic::AtomicBool::new(false),
         })
     }
 
@@ -93,6 +108,7 @@ impl Baton {
             switches: g.switches,
             trace_hash: g.trace,
             overlap_states: g.overlap.iter().cloned().collect(),
+            free_running: self.free.load(Ordering::SeqCst),
         }
     }
 }
@@ -100,8 +116,9 @@ impl Baton {
 impl Handle {
     fn acquire(&self) {
         let b = &self.baton;
+        b.ktids[self.tid].store(unsafe { libc::syscall(libc::SYS_gettid) } as i32, Ordering::SeqCst);
         let mut g = b.inner.lock().unwrap();
-        while g.current != Some(self.tid) {
+        while g.current != Some(self.tid) && !b.free.load(Ordering::SeqCst) {
             g = b.cv.wait(g).unwrap();
         }
         self.gap.set(Baton::draw_gap(&mut g));
@@ -122,7 +139,7 @@ impl Handle {
         g.overlap.insert((pa, pb));
         g.current = Some(to);
         b.cv.notify_all();
-        while g.current != Some(self.tid) {
+        while g.current != Some(self.tid) && !b.free.load(Ordering::SeqCst) {
             g = b.cv.wait(g).unwrap();
         }
         g
@@ -140,10 +157,20 @@ impl Handle {
     /// Draw-level yield point (called from inside the entropy seams).
     #[inline]
     pub fn yield_point(&self) {
-        self.local_steps.set(self.local_steps.get() + 1);
+        self.yield_point_n(1)
+    }
+
+    /// `n` yield points at once (the pre-emption decision is taken at the last of them)
+    #[inline]
+    pub fn yield_point_n(&self, n: u64) {
+        self.local_steps.set(self.local_steps.get() + n);
         let gap = self.gap.get();
-        if gap > 1 {
-            self.gap.set(gap - 1);
+        if gap > n {
+            self.gap.set(gap - n);
+            return;
+        }
+        if self.baton.free.load(Ordering::Relaxed) {
+            self.gap.set(u64::MAX);
             return;
         }
         let b = self.baton.clone();
@@ -157,6 +184,9 @@ impl Handle {
 
     /// Operation-boundary yield point.
     pub fn boundary(&self) {
+        if self.baton.free.load(Ordering::Relaxed) {
+            return;
+        }
         let b = self.baton.clone();
         let mut g = b.inner.lock().unwrap();
         g.steps += self.local_steps.replace(0) + 1;
@@ -231,9 +261,53 @@ pub fn run_threads<T: Send + 'static>(
         g.current = Some(first);
         baton.cv.notify_all();
     }
+    // Monitor: the baton scheduler knows nothing about locks the code under test may take. If the
+    // thread holding the baton blocks in the kernel (state S) because a parked thread was pre-empted
+    // inside a critical section, the schedule is infeasible. That is an artefact of the scheduler,
+    // not a defect: release all threads to run freely and mark the run inconclusive. A genuine
+    // deadlock or hang does not resolve in free-running mode either and ends at the wall-clock limit
+    // of the run's process.
+    let mon = if n > 1 {
+        let b = baton.clone();
+        Some(std::thread::spawn(move || {
+            let mut sleeping = 0u32;
+            let mut last: Option<usize> = None;
+            while !b.done.load(Ordering::SeqCst) {
+                std::thread::sleep(std::time::Duration::from_millis(2));
+                let cur = { b.inner.lock().unwrap().current };
+                let state = cur.and_then(|c| {
+                    let k = b.ktids[c].load(Ordering::SeqCst);
+                    if k == 0 {
+                        return None;
+                    }
+                    let st = std::fs::read_to_string(format!("/proc/self/task/{}/stat", k)).ok()?;
+                    // "pid (comm) S ..." - the state follows the closing parenthesis
+                    st.rsplit(')').next().and_then(|r| r.trim_start().chars().next())
+                });
+                if cur.is_some() && cur == last && state == Some('S') {
+                    sleeping += 1;
+                } else {
+                    sleeping = 0;
+                }
+                last = cur;
+                if sleeping >= 10 {
+                    b.free.store(true, Ordering::SeqCst);
+                    let _g = b.inner.lock().unwrap();
+                    b.cv.notify_all();
+                    break;
+                }
+            }
+        }))
+    } else {
+        None
+    };
     let results = joins
         .into_iter()
         .map(|j| j.join().expect("simulated thread must not die outside guarded()"))
         .collect();
+    baton.done.store(true, Ordering::SeqCst);
+    if let Some(m) = mon {
+        let _ = m.join();
+    }
     (results, baton.stats())
 }
